@@ -22,7 +22,7 @@ from jaxsmt.interp import Interp
 from jaxsmt.logmode import LogInterp
 from jaxsmt.ops import F32, isconc
 from jaxsmt.trace import trace
-from jaxsmt.xreal import XRInterp, XV
+from jaxsmt.xreal import XRInterp, XV, div_axioms
 
 from lerax.distribution import Bernoulli, Categorical, MultiCategorical
 from lerax.policy import MLPActorCriticPolicy, MLPQPolicy, MLPSACPolicy
@@ -524,7 +524,7 @@ def sec_ac(ck, case):
     ck.prove(f"ac.{nm}.mask.action_allowed@nokey", asm, case_allowed(case, out["a"], m, L, it.o, greedy=True), replay=judge_replay(tr0, S, it.uf_apps, case_judge(case)))
     rr = trr.run(it, trr.symbols(it, given={"L": np.array(L, dtype=object), "m": S["m"]}))
 
-    def rp_same(tr, S_, it_, okey, rkey):
+    def rp_same(tr, S_, it_, okey, rkey, masked=True):
         # replay: the real policy vs the real distribution on the logits the policy's layer produced (both in the model's world)
         def rp(res):
             from jaxsmt.distharness import replay_real
@@ -533,16 +533,16 @@ def sec_ac(ck, case):
             keys = concrete.KeyBinding(res)
             kk = concrete.model_leaf(res, S_["key"], [av for n, av in zip(tr.in_names, tr.in_avals) if n == "key"][0], keys) if "key" in S_ else jr.key(0)
             av = ins.get("a", outs.get("a"))
-            a_in = jnp.asarray(np.asarray(av), dtype=case.act.dtype).reshape(case.act.shape)
+            a_in = case.act if av is None else jnp.asarray(np.asarray(av), dtype=case.act.dtype).reshape(case.act.shape)
             w = concrete.ModelWorld(res, list(it_.uf_apps), keys)
             from jaxsmt.uf import world
             jax.clear_caches()
             with world(w):
-                refo = ref(jnp.asarray(Lv), jnp.asarray(ins["m"].astype(bool)), kk, a_in)
+                refo = dist_ref(nm)(jnp.asarray(Lv), jnp.asarray(ins["m"].astype(bool)) if masked else None, kk, a_in)
             jax.clear_caches()
             got, want = np.asarray(outs[okey], dtype=np.float64), np.asarray(refo[rkey], dtype=np.float64)
             bad = not np.allclose(got, want.reshape(got.shape), rtol=1e-3, atol=1e-3, equal_nan=True)
-            return bad, {"policy": got.tolist(), "distribution_on_same_logits": want.tolist(), "logits": Lv.tolist(), "mask": ins["m"].tolist()}
+            return bad, {"policy": got.tolist(), "distribution_on_same_logits": want.tolist(), "logits": Lv.tolist(), "mask": ins["m"].tolist() if masked else None}
         return rp
     ck.prove(f"ac.{nm}.no_key_is_mode", asm, xeq_arr(it.o, out["a"], rr["mode"]), replay=rp_same(tr0, S, it, "a", "mode"))
 
@@ -596,7 +596,7 @@ def sec_ac(ck, case):
     trr0 = trace(ref0, jnp.zeros(case.nlog), jr.key(0), argnames=["L", "key"])
     r4 = trr0.run(it4, trr0.symbols(it4, given={"L": np.array(L4, dtype=object), "key": S4["key"]}))
     ck.prove(f"ac.{nm}.no_key_is_mode@nomask", stubs.contracts(it4), conj([xeq_arr(it4.o, o4["a0"], r4["mode"]), xeq_arr(it4.o, o4["a1"], r4["sample"])]),
-             replay=lambda res: (None, {"note": "structural identity; no replay needed unless it breaks"}))
+             replay=lambda res: _both(rp_same(tr4, S4, it4, "a0", "mode", masked=False)(res), rp_same(tr4, S4, it4, "a1", "sample", masked=False)(res)))
 
 
 def _both(a, b):
@@ -657,6 +657,8 @@ def sec_q(ck, K, eps_list):
         ck.prove(f"q.mask.action_allowed@eps={eps},K={K}", ase, allowed_idx(a, me), replay=judge_replay(tre, Se, ite.uf_apps, jq))
         if eps <= 0:
             ck.prove(f"q.eps_nonpositive_is_greedy@eps={eps},K={K}", ase, greedy_idx(a, me, Qe, ite.o), replay=_greedy_replay(tre, Se, ite, "QNET"))
+        elif eps >= 1:
+            ck.notes.append(f"epsilon={eps}: every draw may explore, the departure bound is trivially 1; only `masks respected` is decided")
         else:
             us = uf_terms(ite, "RAND_u01")
             assert len(us) == 1, f"harness: expected one uniform draw in the epsilon-greedy trace, found {len(us)}"
@@ -683,15 +685,16 @@ def sec_q(ck, K, eps_list):
     un = uf_terms(itn, "RAND_u01")[0]
     allm = [True] * K
     ck.prove(f"q.eps_greedy_bound@nomask,K={K}", stubs.contracts(itn) + [un >= Fraction(float(np.float32(0.1)))], conj([greedy_idx(on["a"][()], allm, Qn, itn.o), greedy_idx(on["a0"][()], allm, Qn, itn.o)]),
-             replay=lambda res: (None, {}))
+             replay=_greedy_replay(trn, Sn, itn, "QNET"))
 
 
 def _greedy_replay(tr, S, it, net):
     def rp(res):
         from jaxsmt.distharness import replay_real
         outs, ins = replay_real(tr, S, res, it.uf_apps)
-        q = np.array([val(res, t) for t in uf_terms(it, net)][:len(ins["m"])])
-        mm = ins["m"].astype(bool)
+        qs = [val(res, t) for t in uf_terms(it, net)]
+        mm = ins["m"].astype(bool) if "m" in ins else np.ones(len(qs), bool)
+        q = np.array(qs[:len(mm)])
         a = int(outs["a"])
         bad = not (0 <= a < len(mm) and mm[a] and q[a] >= np.max(q[mm]) - 1e-5)
         return bad, {"returned": a, "mask": mm.tolist(), "q_values": q.tolist(), "inputs": {k: np.asarray(v).reshape(-1)[:8].tolist() for k, v in ins.items()}}
@@ -761,13 +764,21 @@ def main():
     ck = Check("C16", "Masked actions are never chosen; key-less policies act greedily")
     _prove = ck.prove
 
+    seen_asm = set()
+
     def prove(oid, asm, goal, **kw):
         if "margin_goal" not in kw and not isconc(goal) and not kw.get("ackermann"):
             kw["margin_goal"] = implies(conj(tame_region(list(asm) + [goal])), goal)
+        key = tuple(sorted(a.get_id() for a in asm if not isconc(a)))
+        if key and key not in seen_asm and not kw.get("ackermann"):
+            seen_asm.add(key)      # vacuity guard: every distinct assumption set must be satisfiable
+            ck.witness(f"witness.assumptions.{oid}", list(asm), nonlinear=kw.get("nonlinear", False))
+        if not kw.get("nonlinear") and not kw.get("ackermann") and not isconc(goal):
+            asm = list(asm) + div_axioms(list(asm) + [goal])      # valid facts about the quotients in the query (probs >= 0)
         return _prove(oid, asm, goal, **kw)
     ck.prove = prove
     ck.mode = "LOG (probabilities under masks), XREAL = reals + IEEE -inf/+inf/NaN (which index mode/sample/policies return), FP32 bit-precise (two actions), REAL (SAC identities)"
-    Ks = [2, 3, 5] if not ck.thorough else [2, 3, 4, 5, 6, 7]
+    Ks = [2, 3, 5] if not ck.thorough else [2, 3, 4, 5, 6]
     ck.bound(categorical_K=Ks, bernoulli_n=3, multicategorical_dims=[[2, 3]] + ([[2, 3, 2]] if ck.thorough else []), policy_spaces=["Discrete(3)", "MultiDiscrete((2,3))", "MultiBinary(3)"],
              q_policy_K=[3] if not ck.thorough else [3, 5], epsilons=[0.1, 0.0, -0.5] + ([1.0, 0.5] if ck.thorough else []), sac_action_shapes=["()", "(2,)"],
              fp32="full mask->normalise->gumbel-argmax pipeline bit-precise for K=2, logits in [-1e30, 1e30]" + ("" if ck.thorough else " (thorough tier only)"),
